@@ -281,6 +281,8 @@ def run(case):
         cur = buf.position
         log.append((step, desc, real_exc, real_val, real_pos if exp_pos is not None else None, cur))
         count('op.' + op)
+        # coverage grid: operation x length x cursor x (fill ahead of the cursor?)
+        count('grid.%s.n%d.i%d.%s' % (op, n, i, 'ahead' if maxfill > i else 'level'))
         if real_exc != exp_exc:
             if real_exc is None:
                 violation = {'class': 'missing-exhaustion-signal', 'detail': 'step %d %r at cursor %d of %d: '
